@@ -69,14 +69,20 @@ def in_fragment(d):
         types = [json_type(x) for x in d["fields"]]
         if any("any" in t for t in types) or not all(in_fragment(x) for x in d["fields"]):
             return False
-        # distinguishable: pairwise disjoint JSON types (int/float overlap counts as one numeric type)
-        norm = [{("num" if x in ("int", "float") else x) for x in t} for t in types]
-        for i in range(len(norm)):
-            for j in range(i + 1, len(norm)):
-                if norm[i] & norm[j]:
-                    return False
-        return not any(x["k"] in ("struct",) for x in d["fields"]) or len([x for x in d["fields"] if x["k"] == "struct"]) <= 1
+        return distinguishable(d)
     return False
+
+
+def distinguishable(d):
+    """AnyOf over distinguishable options (the statement's quantifier): pairwise disjoint JSON types (int/float
+    overlap counts as one numeric type) and at most one structure option"""
+    types = [json_type(x) for x in d["fields"]]
+    norm = [{("num" if x in ("int", "float") else x) for x in t} for t in types]
+    for i in range(len(norm)):
+        for j in range(i + 1, len(norm)):
+            if norm[i] & norm[j]:
+                return False
+    return len([x for x in d["fields"] if x["k"] == "struct"]) <= 1
 
 
 def admits_none(d):
@@ -99,7 +105,10 @@ def lossy_only(d):
         return False
     if k in ("seqOf", "setOf", "tupleOf"):
         return lossy_only(d["item"])
-    if k in ("seqPos", "tuplePos", "anyOf"):
+    if k == "anyOf":
+        return all(lossy_only(x) for x in d["fields"]) and distinguishable(d) \
+            and not any("any" in json_type(x) for x in d["fields"][:-1])
+    if k in ("seqPos", "tuplePos"):
         return all(lossy_only(x) for x in d.get("items") or d.get("fields"))
     if k == "mapOf":
         return d["key"]["k"] in ("string", "integer", "enumCls") and lossy_only(d["val"])
@@ -462,8 +471,12 @@ def offpath_inline(d, on_path=True):
             if d.get("inline") and not on_path:
                 return True
             return any(offpath_inline(fd, True) for _, fd in d["fields"])
-        if k in ("seqOf", "setOf"):
-            return offpath_inline(d["item"], on_path)
+        # probed on the real code: a sub-mapper exists for a class field and for the DIRECT items of an
+        # Array (single or positional) that is itself a class field; not for Deque / Tuple / Map / AnyOf /
+        # nested collections
+        if k in ("seqOf", "seqPos") and d.get("seq") != "deque":
+            items = [d["item"]] if k == "seqOf" else d["items"]
+            return any(offpath_inline(it, on_path and it.get("k") == "struct") for it in items)
         return any(offpath_inline(x, False) for x in list(d.values()))
     if isinstance(d, list):
         return any(offpath_inline(x, on_path) for x in d)
